@@ -500,6 +500,7 @@ func genC06(c *Ctx) {
 	// 4. booleans and non-numeral strings are returned unchanged
 	c06Tag = map[string]string{}
 	c06Unchanged(c)
+	c06SameTypeHistory(c)
 	c.Exhaustive = true
 
 	// 5. random heterogeneous documents: numbers of every carrier next to strings and bools
@@ -665,5 +666,61 @@ func c06Unchanged(c *Ctx) {
 			c06Exact(c, "$.k.Equal("+v.lit+")", c06Struct("k", v.tv), "b:1", cls+"/receiver-equal")
 		}
 		c06Logical(c, "$.k.AsArray().First()", c06Map("k", v.tv), v.logic, cls+"/receiver")
+	}
+}
+
+// c06SameTypeHistory: a struct field whose static type is an interface or a pointer holds a non-number in one record and
+// a number in the next record OF THE SAME STRUCT TYPE - one after the other in one process, and side by side in one
+// array. Whatever was learnt about the field from the first record must not be applied to the second.
+func c06SameTypeHistory(c *Ctx) {
+	type holder struct {
+		name string
+		non  *TV // what the field holds first
+		num  func(v *TV) *TV
+		flag int
+	}
+	holders := []holder{
+		{"iface-field/string-then-number", tvStr("n/a"), func(v *TV) *TV { return v }, 2},
+		{"iface-field/nil-then-number", tvNil(), func(v *TV) *TV { return v }, 2},
+		{"iface-field/bool-then-number", tvBool(true), func(v *TV) *TV { return v }, 2},
+	}
+	nums := []struct {
+		tv  *TV
+		rat *big.Rat
+		ptr bool
+	}{
+		{tvInt("int", "7"), big.NewRat(7, 1), false},
+		{tvInt("uint64", "18446744073709551615"), new(big.Rat).SetInt(c06Big("18446744073709551615")), false},
+		{tvInt("int8", "-128"), big.NewRat(-128, 1), false},
+		{tvF64(2.5), big.NewRat(5, 2), false},
+		{tvPtr(tvInt("int64", "9")), big.NewRat(9, 1), true},
+	}
+	mk := func(flag int, v *TV) *TV {
+		return tvStruct([][3]any{{"Pad", 1, tvStr("pad")}, {"K", flag, v}})
+	}
+	for _, h := range holders {
+		for _, n := range nums {
+			first, second := mk(h.flag, h.non), mk(h.flag, h.num(n.tv))
+			// one after the other
+			c.Do(Case{Q: "$.K", D: first, XK: "", Cls: "same-type-history/" + h.name + "/first", InDomain: true})
+			c06Scalar(c, "$.K", second, n.rat, "same-type-history/"+h.name+"/second")
+			c06Scalar(c, "$.k.Add(0)", second, n.rat, "same-type-history/"+h.name+"/second-receiver")
+			// side by side: the key stepped across the records
+			d := tvMap("str", [][2]any{{hx("xs"), tvSlice(1, first, second, second)}})
+			o := c.Do(Case{Q: "$.xs.K.Last()", D: d, XK: "logical", X: "n:" + n.rat.RatString(), Cls: "same-type-history/" + h.name + "/stepped-key", InDomain: true})
+			if o.Class == "ok" && !strings.HasPrefix(o.Exact, "d:") {
+				c.addViolation(Violation{Kind: "oracle", Query: "$.xs.K.Last()", QueryHex: hx("$.xs.K.Last()"), Data: d, Expected: "a decimal.Decimal", Got: o.Line(),
+					Why: "a number collected by stepping a key across records of one struct type is not a decimal.Decimal", Cls: "same-type-history/" + h.name, Key: "type:same-type-history"})
+			}
+		}
+	}
+	// pointer-typed fields: nil pointer first, then a pointer to a number (the same field type *T)
+	for _, k := range []string{"int", "int64", "uint8", "uint64"} {
+		first := tvStruct([][3]any{{"Pad", 1, tvStr("pad")}, {"K", 1, tvNilPtr(tvInt(k, "0"))}})
+		second := tvStruct([][3]any{{"Pad", 1, tvStr("pad")}, {"K", 1, tvPtr(tvInt(k, "5"))}})
+		c.Do(Case{Q: "$.K", D: first, XK: "", Cls: "same-type-history/ptr-field/first", InDomain: true})
+		c06Scalar(c, "$.K", second, big.NewRat(5, 1), "same-type-history/ptr-field/second")
+		d := tvMap("str", [][2]any{{hx("xs"), tvSlice(1, first, second)}})
+		c06Scalar(c, "$.xs.K.Last()", d, big.NewRat(5, 1), "same-type-history/ptr-field/stepped-key")
 	}
 }
